@@ -256,7 +256,7 @@ func setMinSizeProperty(schema any, size int) {
 	if bag == nil {
 		return
 	}
-	bag[sizePropertyKey(bag, "min")] = size
+	bag[sizePropertyKey(schema, bag, "min")] = size
 }
 
 // setMaxSizeProperty sets the appropriate max size property based on schema type.
@@ -265,12 +265,23 @@ func setMaxSizeProperty(schema any, size int) {
 	if bag == nil {
 		return
 	}
-	bag[sizePropertyKey(bag, "max")] = size
+	bag[sizePropertyKey(schema, bag, "max")] = size
 }
 
 // sizePropertyKey returns the JSON Schema property name for a size bound.
-func sizePropertyKey(bag map[string]any, prefix string) string {
-	if t, ok := bag["type"]; ok {
+// Map-like schemas (object, struct, record, map) count properties; a Bag
+// "type" entry, when present, takes precedence.
+func sizePropertyKey(schema any, bag map[string]any, prefix string) string {
+	t, ok := bag["type"]
+	if !ok {
+		if s, isSchema := schema.(interface{ Internals() *core.ZodTypeInternals }); isSchema {
+			switch s.Internals().Type { //nolint:exhaustive
+			case core.ZodTypeObject, core.ZodTypeStruct, core.ZodTypeRecord, core.ZodTypeMap:
+				t, ok = "object", true
+			}
+		}
+	}
+	if ok {
 		switch t {
 		case "array":
 			return prefix + "Items"
